@@ -107,7 +107,7 @@ def trace_part(chk, tier):
         sels.append([{'cs': [[{'k': 'dir', 'd': dd}]], 'cb': []}])
     nssels = []          # namespaced attribute names: case-sensitive in XML and XHTML, folded in HTML
     for spec in ({'t': 'pfx', 'p': cps('x')}, {'t': 'any'}):
-        for an in ('href', 'HREF', 'Href', 'title', 'Title'):
+        for an in ('href', 'HREF', 'Href', 'title', 'Title', 'viewBox', 'viewbox', 'VIEWBOX', 'data-K', 'data-k'):
             nssels.append([{'cs': [[{'k': 'attr', 'ns': spec, 'name': nm(an), 'op': 'ex', 'val': [], 'flag': 'n'}]], 'cb': []}])
     for parser in ('html.parser', 'lxml', 'html5lib', 'xml'):
         for variant in ('plain', 'xhtml', 'embed'):
